@@ -16,7 +16,7 @@ RULE = ('(A) differential: one seeded timed program per run, executed in separat
         'final contents of the supplied mapping) must be identical, and the option-effect oracles of C08/C10/C11 are applied to the '
         'options form. Single-loop programs only, so the schedule has no choice in it and equality is exact. (B) a function decorated '
         'with async_background_batcher(**opts) used from 1-3 SimLoops one after another (each run and closed by a real asyncio.Runner) '
-        'and from 2-3 at once (threads, line-level pre-emption incl. the per-loop registry lookup): every caller completes with the '
+        'from 2-3 at once (threads, line-level pre-emption incl. the per-loop registry lookup) and from 2-3 open loops driven alternately by one thread (paused, not closed, in between): every caller completes with the '
         'result for its key, and that result was computed by a batch running on the caller\'s own loop. distinct by run digest.')
 LEVEL_TEXT = ('Differential deterministic simulation: because virtual time and the single-loop schedule are fully determined by the '
               'program, "behaves identically" is an exact trace comparison; the multi-loop clause is a seeded thread-schedule search.')
@@ -34,12 +34,13 @@ def batches(tier):
             {'name': 'diff-buffer', 'n': 8000 * k, 'profile': 'buffer'},
             {'name': 'diff-cache', 'n': 6000 * k, 'profile': 'cache'},
             {'name': 'multi-successive', 'n': 4000 * k, 'profile': 'successive'},
-            {'name': 'multi-concurrent', 'n': 6000 * k, 'profile': 'concurrent'}]
+            {'name': 'multi-concurrent', 'n': 6000 * k, 'profile': 'concurrent'},
+            {'name': 'multi-alternating', 'n': 5000 * k, 'profile': 'alternating'}]
 
 
 def make_case(batch, seed):
     rng = random.Random(seed)
-    if batch['profile'] in ('successive', 'concurrent'):
+    if batch['profile'] in ('successive', 'concurrent', 'alternating'):
         prog = dw.gen_multi(rng, batch['profile'])
         return {'prog': prog, 'sched': {'seed': seed, 'strategy': list(S.pick_strategy(rng))}}
     return {'prog': dw.gen_diff(rng, batch['profile']), 'sched': {}}
@@ -51,6 +52,13 @@ def run_case(case):
 
 def shrink(case):
     p = case['prog']
+    if p['part'] == 'multi' and p['mode'] == 'alternating':
+        if len(p['segments']) > 1:
+            for i in range(len(p['segments'])):
+                c = json.loads(json.dumps(case))
+                del c['prog']['segments'][i]
+                yield c
+        return
     if p['part'] == 'multi':
         if len(p['loops']) > 1:
             for i in range(len(p['loops'])):
